@@ -52,6 +52,14 @@ def stmtErr : StmtErr → String
   | .exec .groupByNotSelected => "groupByNotSelected"
   | .unsupported => "unsupported"
 
+/-- what `EvaluateSelect` reads of a table: `RelationService.Fetch` - the declared column names (the
+executor adds the table id: alias or name) and the rows without their row ids; an error value of
+`Fetch` (unknown table, a row that does not decode) is "no such table" to the executor -/
+def fetchOfDB (db : DB) (name : Bytes) : Option Exec.Table :=
+  match fetchTable name db.store with
+  | .ok (rows, schema) _ => some ⟨schema.map fun fd => fd.name.toUTF8.toList, rows.map (·.2)⟩
+  | _ => none
+
 def onCurrent (s : Sess) (f : DB → Res α) : Sess × Out :=
   match s.cur with
   | none => (s, .err "noDbSelected")
@@ -93,7 +101,19 @@ def exec (s : Sess) : Stmt → Sess × Out
   | .insert t cols rows => onCurrent s fun db => evalInsert db t cols (rows.map fun r => r.map litToVal)
   | .update t sets w => onCurrent s fun db => evalUpdate db t sets w
   | .delete t w => onCurrent s fun db => evalDelete db t w
-  | .select _ => (match s.cur with | none => (s, .err "noDbSelected") | some _ => (s, .ok))
+  | .select q =>
+    -- `EvaluateSelect` on the selected database: rows (not modelled at this level: the executor runs
+    -- of C05-C07 compare them) or an error value; it changes nothing
+    match s.cur with
+    | none => (s, .err "noDbSelected")
+    | some n =>
+      match getDB s n with
+      | none => (s, .panic)
+      | some db =>
+        match Exec.evaluateSelect (fetchOfDB db) q with
+        | .ok _ => (s, .ok)
+        | .err e => (s, .err (stmtErr (.exec e)))
+        | .panic _ => (s, .panic)
 
 /-- close the session (flush the selected database), run start-up recovery on every database -/
 def restart (s : Sess) : Option Sess :=
